@@ -113,6 +113,9 @@ def negative_strategy():
                 S.u32,
             ).filter(lambda m: m != 0xBEEF),
             "short": st.integers(0, 58),
+            # wrong-magic plaintexts of any shape that still parses: size field consistent with the length or not
+            "wm_size": st.one_of(st.just(51), st.integers(0, 120), st.sampled_from([0, 50, 52, 0xFFFFFFFF])),
+            "wm_len": st.one_of(st.just(51), st.integers(51, 100)),
         }
     )
 
@@ -140,7 +143,7 @@ def negative_execute(case, stats):
         blob = PKCS1_v1_5.new(other.public_key()).encrypt(pt)
         blob = blob.rjust(k, b"\x00")[:k] if case["key"] == "rsa_2048" else blob
     elif kind == "wrong_magic":
-        pt = struct.pack(">II", case["magic"], 51) + case["data"][:51]
+        pt = struct.pack(">II", case["magic"], case.get("wm_size", 51)) + case["data"][: case.get("wm_len", 51)]
         blob = PKCS1_v1_5.new(priv.public_key()).encrypt(pt)
     else:  # short_plain: valid PKCS#1 plaintext shorter than the fixed 59-byte header
         pt = (struct.pack(">II", 0xBEEF, 51) + case["data"][:51])[: case["short"]]
